@@ -1036,6 +1036,15 @@ theorem truth_within_lmfit_bounds_neg (ln2 rms ic oc A B xs ys P x0 y0 sx sy th 
   rw [pAmpMinNeg_eq_hand, pAmpMaxNeg_eq_hand, pAmpValueNeg_eq_hand]
   exact ⟨h1, h2, rfl⟩
 
+/-! ### which astropy transform the sky conversions go through (regenerated from `WCSHelper.pix2sky / sky2pix`) -/
+
+/-- **wcs_entry_points**: both conversions call the `all_` transform (core WCS plus SIP / distortion tables; code 1), not the
+    core-only `wcs_` transform (code 2), and with origin 1 (FITS pixel coordinates).  A header in the `-SIP` spelling is
+    therefore honoured in both directions. -/
+theorem wcs_entry_points :
+    Gen.C01.pix2skyEntry = 1 ∧ Gen.C01.pix2skyOrigin = 1 ∧ Gen.C01.sky2pixEntry = 1 ∧ Gen.C01.sky2pixOrigin = 1 := by
+  refine ⟨?_, ?_, ?_, ?_⟩ <;> rfl
+
 /-! ### Non-vacuity -/
 
 /-- a concrete oracle obeying the laws: a uniform scale of 1/360 degree per pixel, identity on
